@@ -204,7 +204,16 @@ func (h *Hist) Submit(c *Call, monitors []Monitor) *TxnObs {
 		Nonce: txn.Nonce, Time: int64(txn.CreationDate), Round: h.Round, Data: trunc(txn.TransactionData, 1500)}
 	// log before the call: a crash inside the contract still leaves the input
 	fmt.Printf("OP %s %s\n", h.ID, mustJSON(rec))
-	ev, err := h.BC.Exec(txn)
+	var ev []event.Event
+	var err error
+	if adm, ok := c.Meta["admission"].(func(*transaction.Transaction) error); ok {
+		// Chain.UpdateState relies on the checks a node runs before a transaction may enter a block (ComputeProperties,
+		// ValidateWrtTime); calls that are NOT built by world.MakeTxn's own canonical path go through them first
+		err = adm(txn)
+	}
+	if err == nil {
+		ev, err = h.BC.Exec(txn)
+	}
 	ops, tr, st := h.Obs.ResetTxn()
 	post, serr := snap.Take(h.BC.State)
 	if serr != nil {
